@@ -341,3 +341,23 @@ ok, text = drv.replay(art['case'])
 print(text)
 sys.exit(0 if ok else 1)
 '''
+
+
+# --------------------------------------------------------------------------------------------
+# pristine library state between cases
+
+_PRISTINE = None
+
+
+def fresh_library_state():
+    """Restore every mutable module-/class-level container of the library to its state right after
+    import (NOT simply emptied: a pre-seeded rule table is part of what a fresh interpreter sees).
+    History dependence is C09's subject; every other check starts each case from the import state."""
+    global _PRISTINE
+    if _PRISTINE is None:
+        from mc.engine_states import ModuleState
+        import numdifftools  # noqa: F401
+        _PRISTINE = ModuleState()
+    else:
+        _PRISTINE.restore()
+    return _PRISTINE
